@@ -29,7 +29,7 @@ import (
 )
 
 func init() {
-	register(&Prop{ID: "C17", Gen: genC17, Run: runC17, Timeout: 30 * time.Second})
+	register(&Prop{ID: "C17", Gen: genC17, Run: runC17, Timeout: 150 * time.Second})
 }
 
 var g2ProbeIds = []uint16{0, 1, 2, 3, 4, 5, 6, 7, 8, 9, 10, 11, 14, 15, 18, 19, 20, 21, 0x7fff}
@@ -202,7 +202,8 @@ func runC17(op string) string {
 			return "closed-without-error"
 		}
 		return g2ClassifyConnErr(err)
-	case <-time.After(3 * time.Second):
+	case <-time.After(g2Deadline()):
+		g2NoteExpired()
 		select {
 		case s := <-peerDone:
 			return "none(" + s + ")"
